@@ -913,3 +913,55 @@ package iavl
 //@   ensures [present] err == nil && !fnfail && !immfail && old(tree.ndb.firstVersion) <= version && version <= old(tree.ndb.latestVersion) ==> (value != nil) == has(dbtree(version), ord(key))
 //@   ensures [value] err == nil && !fnfail && !immfail && value != nil ==> cntOf(value) == lookup(dbtree(version), ord(key))
 //@   modifies *
+
+// ---------------------------------------------------------------- mutable_tree.go: SaveVersion — what a commit writes, under which version, and in which order
+//@ func (*MutableTree).saveFastNodeVersion(tree, latestVersion) (err)
+//@   props C07 C12
+//@   nosafety
+//@   requires tree != nil
+//@   callsite MutableTree).saveFastNodeAdditions [additions-written] arg0 == tree
+//@   callsite MutableTree).saveFastNodeRemovals [removals-written] arg0 == tree
+//@   callsite nodeDB).SetFastStorageVersionToBatch [label-is-committed-version] arg1 == latestVersion
+//@   modifies *
+//@ func (*MutableTree).saveFastNodeAdditions(tree) (err)
+//@   summary
+//@ func (*MutableTree).saveFastNodeRemovals(tree) (err)
+//@   summary
+//@ func (*MutableTree).saveNewNodes(tree, version) (err)
+//@   summary
+//@ func (*nodeDB).SaveEmptyRoot(ndb, version) (err)
+//@   summary
+//@ func (*nodeDB).SaveRoot(ndb, version, nk) (err)
+//@   summary
+//@ func (*nodeDB).Commit(ndb) (err)
+//@   summary
+//@ func (*MutableTree).WorkingHash(tree) (h)
+//@   summary
+//@ func (*nodeDB).SetFastStorageVersionToBatch(ndb, latestVersion) (err)
+//@   summary
+
+// A commit of a NEW version: the fast index is written and labelled with the
+// committed version before the nodes; an empty tree gets an empty-root marker,
+// an unchanged tree a reference to its (already stored) root, a changed tree
+// its new nodes — all under the same version; the version becomes visible
+// (latestVersion) only after the storage commit; afterwards the working tree
+// is at that version and both uncommitted overlays are empty.
+//@ func (*MutableTree).SaveVersion(tree) (hash, v, err)
+//@   props C01 C02 C12 C14 C07
+//@   nosafety
+//@   requires tree != nil && tree.ImmutableTree != nil && tree.ndb != nil && allocated(tree.ndb) && tree.ndb.db != nil && tree.ImmutableTree.version < 9223372036854775807 && tree.ImmutableTree.version >= 0
+//@   requires tree.ndb.legacyLatestVersion == 0 - 1 && tree.ndb.firstVersion > 0 && tree.ndb.latestVersion > 0
+//@   requires !tree.initialVersionSet
+//@   requires tree.ndb.batch != nil && tree.ndb.nodeCache != nil && tree.ndb.logger != nil
+//@   requires tree.ImmutableTree.root != nil && tree.ImmutableTree.root.subtreeHeight != 0 && tree.ImmutableTree.root.leftNodeKey != nil ==> len(tree.ImmutableTree.root.leftNodeKey) == 12 || len(tree.ImmutableTree.root.leftNodeKey) == 32
+//@   requires tree.ImmutableTree.root != nil && tree.ImmutableTree.root.subtreeHeight != 0 && tree.ImmutableTree.root.rightNodeKey != nil ==> len(tree.ImmutableTree.root.rightNodeKey) == 12 || len(tree.ImmutableTree.root.rightNodeKey) == 32
+//@   let wv = tree.ImmutableTree.version + 1
+//@   callsite MutableTree).saveFastNodeVersion [index-labelled] arg1 == wv && !tree.skipFastStorageUpgrade
+//@   callsite nodeDB).SaveEmptyRoot [empty-marker] arg1 == wv && tree.ImmutableTree.root == nil
+//@   callsite nodeDB).SaveRoot [reference-root] arg1 == wv && tree.ImmutableTree.root != nil && tree.ImmutableTree.root.nodeKey != nil && arg2 == tree.ImmutableTree.root.nodeKey
+//@   callsite MutableTree).saveNewNodes [new-nodes] arg1 == wv && tree.ImmutableTree.root != nil && tree.ImmutableTree.root.nodeKey == nil
+//@   callsite nodeDB).resetLatestVersion [published-version] arg1 == wv
+//@   ensures [version] err == nil ==> v == old(wv) && tree.ImmutableTree != nil && tree.ImmutableTree.version == old(wv)
+//@   ensures [overlay] err == nil && !(old(tree.ndb.firstVersion) <= old(wv) && old(wv) <= old(tree.ndb.latestVersion)) && !tree.skipFastStorageUpgrade ==> tree.unsavedFastNodeAdditions != nil && tree.unsavedFastNodeRemovals != nil && smhas[tree.unsavedFastNodeAdditions] == emptyKeys && smhas[tree.unsavedFastNodeRemovals] == emptyKeys
+//@   ensures [lastsaved] err == nil ==> tree.lastSaved != nil && tree.lastSaved != tree.ImmutableTree && tree.lastSaved.version == old(wv)
+//@   modifies *
